@@ -464,3 +464,14 @@ func dimacs(f [][]int, n int) string {
 	}
 	return sb.String()
 }
+
+// Exported aliases used by the schedule-exploration scenarios.
+func FamS3(maxSeq, maxMulti int, yield func(f [][]int, n int) bool) bool {
+	return famS3(maxSeq, maxMulti, yield)
+}
+func FamT2(maxM, shortM int, yield func(f [][]int, n int) bool) bool {
+	return famT2(maxM, shortM, yield)
+}
+func FamM(seed int64, tier string, yield func(name string, f [][]int, n int) bool) bool {
+	return famM(seed, tier, yield)
+}
